@@ -51,7 +51,7 @@ class Anchors:
 
 def resolve(ck):
     global _EV
-    _EV = Evaluator(ck.repo, F)
+    _EV = Evaluator(ck.repo, F, scopes=[FN])
     A = Anchors()
     fi = ck.func(F, FN)
     A.fi = fi
